@@ -69,6 +69,8 @@ type Enc struct {
 	resultTerms   []Value
 	finalGuard    Term
 	inlineN       int
+	workdir       string
+	encQ          int
 	quantCands    bool
 	callOrd       map[string]int
 	callOrdSite   map[ssa.Instruction]map[string]int
@@ -112,6 +114,12 @@ func (e *Enc) havoc(prefix string, s Sort) Term {
 func (e *Enc) define(prefix string, t Term) Term {
 	if t.isC || len(t.S) < 24 {
 		return t
+	}
+	if t.Sort == SSlice && strings.HasPrefix(t.S, "(mk-slice ") {
+		// keep slices with a constant length inline so that the length stays syntactically constant
+		if parts := splitTop(t.S[1 : len(t.S)-1]); len(parts) == 5 && strings.HasPrefix(parts[3], "#x") && len(t.S) < 400 {
+			return t
+		}
 	}
 	n := e.fresh(prefix)
 	e.emit(fmt.Sprintf("(define-fun %s () %s %s)", n, t.Sort, t.S))
@@ -286,7 +294,7 @@ func (e *Enc) zero(t types.Type) Term {
 	case *types.Interface, *types.TypeParam:
 		return sym("inil", SIface)
 	case *types.Array:
-		return Term{S: fmt.Sprintf("((as const %s) %s)", s, e.zero(u.Elem()).S), Sort: s}
+		return e.constArray(s, e.zero(u.Elem()))
 	case *types.Struct:
 		fs := make([]Term, u.NumFields())
 		for i := range fs {
@@ -298,6 +306,14 @@ func (e *Enc) zero(t types.Type) Term {
 		return i64(0)
 	}
 	return i64(0)
+}
+
+// constArray: ((as const A) v) when v is a literal value; otherwise (cvc5 rejects non-value arguments) a named
+// array constant with a defining axiom.
+func (e *Enc) constArray(s Sort, v Term) Term {
+	// z3 accepts any term here; cvc5 only values: the cvc5 runner rewrites non-value constant arrays into a named
+	// array with a defining axiom (see cvc5Compat)
+	return Term{S: fmt.Sprintf("((as const %s) %s)", s, v.S), Sort: s}
 }
 
 func (e *Enc) strLit(v string) Term {
